@@ -242,6 +242,7 @@ def solo_spec(spec, i):
         "check_fresh": False,
         "probes": False,
         "nest_sequential": True,
+        "record_shared_writes": bool(spec.get("schedule_at_shared_write")) and i == 0,
     }
 
 
